@@ -15,24 +15,46 @@ type EachResult struct {
 	Name    string
 	Package string
 	File    string
-	Conv    *config.Converter
-	Files   map[string][]byte
-	Err     error
-	Panic   any
+	// Stage is where Err or Panic happened: "parse" (settings, signatures) or "generate".
+	Stage string
+	// ConvLocation and MethodLocations are the file:line strings diagnostics refer to.
+	ConvLocation    string
+	MethodLocations map[string]string
+	Conv            *config.Converter
+	Files           map[string][]byte
+	Err             error
+	Panic           any
+}
+
+// EachOpts customises GenerateEachVerifOpts.
+type EachOpts struct {
+	// GlobalFor returns the -g lines to use for the named converter (nil: use GenerateConfig.Global).
+	GlobalFor func(name string) []string
 }
 
 // GenerateEachVerif loads the packages once and then parses and generates every converter separately.
 func GenerateEachVerif(c *GenerateConfig) ([]EachResult, error) {
+	return GenerateEachVerifOpts(c, EachOpts{})
+}
+
+// GenerateEachVerifOpts is GenerateEachVerif with per-converter command line settings.
+func GenerateEachVerifOpts(c *GenerateConfig, opts EachOpts) ([]EachResult, error) {
 	rawConverters, err := comments.ParseDocs(comments.ParseDocsConfig{
 		BuildTags: c.BuildTags, PackagePattern: c.PackagePatterns, WorkingDir: c.WorkingDir,
 	})
 	if err != nil {
 		return nil, err
 	}
+	var globals []config.RawLines
+	if opts.GlobalFor != nil {
+		for _, rc := range rawConverters {
+			globals = append(globals, config.RawLines{Location: c.Global.Location, Lines: opts.GlobalFor(rc.InterfaceName)})
+		}
+	}
 	convs, errs, err := config.ParseEachVerif(&config.Raw{
 		BuildTags: c.BuildTags, WorkDir: c.WorkingDir, Converters: rawConverters, Global: c.Global,
 		OuputBuildConstraint: c.OutputBuildConstraint, EnumTransformers: c.EnumTransformers,
-	})
+	}, globals)
 	if err != nil {
 		return nil, err
 	}
@@ -42,7 +64,14 @@ func GenerateEachVerif(c *GenerateConfig) ([]EachResult, error) {
 		res[i].Package = rawConverters[i].PackagePath
 		res[i].File = rawConverters[i].FileName
 		res[i].Conv = convs[i]
+		res[i].ConvLocation = rawConverters[i].Converter.Location
+		res[i].MethodLocations = map[string]string{}
+		for name, lines := range rawConverters[i].Methods {
+			res[i].MethodLocations[name] = lines.Location
+		}
+		res[i].Stage = "generate"
 		if errs[i] != nil {
+			res[i].Stage = "parse"
 			if p, ok := errs[i].(*config.PanicVerif); ok {
 				res[i].Panic = fmt.Sprint(p.Value)
 			} else {
